@@ -258,6 +258,41 @@ def bounded_graphs(tier, seed):
                     os.environ.pop("PYOPENAPI_MAX_DEPTH", None)
                 else:
                     os.environ["PYOPENAPI_MAX_DEPTH"] = old_env
+    # discriminated unions that list one another (same discriminator property), through the public loader — the transformers that run AFTER the tracked parser
+    # (discriminator enums, inline promotion) walk the finished graph and must end on cycles too
+    Rd = "#/components/schemas/"
+
+    def _du(members):
+        return {"oneOf": [{"$ref": Rd + m_} for m_ in members], "discriminator": {"propertyName": "kind", "mapping": {m_.lower(): Rd + m_ for m_ in members}}}
+    leaf = lambda v: {"type": "object", "required": ["kind"], "properties": {"kind": {"type": "string", "enum": [v]}, "x": {"type": "string"}}}  # noqa: E731
+    union_cycles = {
+        "two unions listing each other": {"A": _du(["B", "L1"]), "B": _du(["A", "L2"]), "L1": leaf("l1"), "L2": leaf("l2")},
+        "three unions in a ring": {"A": _du(["B", "L1"]), "B": _du(["C", "L2"]), "C": _du(["A", "L1"]), "L1": leaf("l1"), "L2": leaf("l2")},
+        "union listing itself": {"A": _du(["A", "L1"]), "L1": leaf("l1")},
+        "nested unions, no cycle": {"A": _du(["B", "L1"]), "B": _du(["L2", "L1"]), "L1": leaf("l1"), "L2": leaf("l2")},
+        "anyOf unions listing each other": {"A": dict(_du(["B", "L1"]), anyOf=_du(["B", "L1"])["oneOf"]), "B": _du(["A", "L2"]), "L1": leaf("l1"), "L2": leaf("l2")},
+    }
+    for label, raw in union_cycles.items():
+        if "anyOf" in raw.get("A", {}):
+            raw["A"].pop("oneOf", None)
+        n += 1
+        distinct.add("unions:" + label)
+        lim1 = _sys0.getrecursionlimit()
+        try:
+            from pyopenapi_gen.core.loader.loader import load_ir_from_spec as _load
+            import warnings as _w2
+            with _w2.catch_warnings():
+                _w2.simplefilter("ignore")
+                ir = _load({"openapi": "3.0.3", "info": {"title": "u", "version": "1"}, "paths": {}, "components": {"schemas": raw}})
+            missing = [k for k in raw if k not in ir.schemas]
+            if missing:
+                failures.append({"id": "bounded:load_ir_from_spec:union-cycles", "detail": f"{label}: declared names missing from the result: {missing}", "input": {"schemas": raw}})
+        except RecursionError:
+            failures.append({"id": "bounded:load_ir_from_spec:union-cycles", "detail": f"{label}: RecursionError (interpreter stack exhausted) in the public loader", "input": {"schemas": raw}})
+        except Exception:  # noqa  (an ordinary, prompt rejection is fine)
+            pass
+        finally:
+            _sys0.setrecursionlimit(lim1)
     # degenerate reference structures: they may be rejected, but loading must END (an ordinary error or a result), never exhaust the interpreter stack
     R_ = "#/components/schemas/"
     rings = {
